@@ -37,7 +37,7 @@ def build_jobs(chk, q):
                # increment larger than the clock, an empty clock, one move to go with an increment, one millisecond
                {"wtime": 40, "btime": 40, "winc": 1000, "binc": 1000}, {"wtime": 0, "btime": 0, "winc": 30, "binc": 30},
                {"wtime": 30, "btime": 30, "winc": 200, "binc": 200, "mtg": 1}, {"wtime": 1, "btime": 1},
-               {"wtime": 60, "btime": 60, "mtg": 40}, {"wtime": 25}, {"btime": 25}][i % 13]
+               {"wtime": 60, "btime": 60, "mtg": 40}][i % 11]
         jobs.append({"hash": 1, "tag": "timed", "searches": [dict(pos=p, **lim), dict(pos=pool[(i + 7) % len(pool)], depth=3, newgame=(i % 2 == 0))]})
     # C: more than 256 searches on one table (8-bit generation counter), then a real search
     for rep in range(1 if q else 4):
